@@ -144,13 +144,33 @@ TrimLevel(segs, lv) ==
   IF Len(segs) > 1 /\ Merged(Last(segs)) THEN TrimLevel(Front(segs), lv)
   ELSE IF Len(segs) > 1 /\ Last(segs)[3] = "w" /\ Last(segs)[1] = lv THEN TrimLevel(Front(segs), lv)
   ELSE segs
-TrimSilence(segs) == LET s1 == DropMerged(segs) IN TrimLevel(s1, Last(s1)[1])
+\* (an open tail pulse - see OpenTail - delimits what precedes it only if that is at another level)
+IsOpenTail(s) == s[3] = "t" /\ s[2] = 0
+TrimSilence(segs) == LET s1 == DropMerged(segs) IN
+                     IF Len(s1) > 1 /\ IsOpenTail(Last(s1)) THEN TrimLevel(Front(s1), Last(s1)[1]) ELSE TrimLevel(s1, Last(s1)[1])
 ExpectedSignal(blocks, fe, gpol) == Canon(TrimSilence(FiniteSegs(TapeSegs(blocks, fe, gpol))))
 ExpectedSignals(blocks, fe, gpol) ==
   LET segs == TapeSegs(blocks, fe, gpol) IN
   IF FinalTailEither(segs) THEN {Canon(TrimSilence(segs)), Canon(TrimSilence(OpenTail(segs)))}
   ELSE {Canon(TrimSilence(FiniteSegs(segs)))}
 PlayedSignal(edges) == Canon(EdgeSegs(edges))
+
+\* Zero-length pulses of sample data played within the silence the tape ends with are a change of level
+\* that lasts no time. Whether the silence before such a blip counts as delimited is not specified (the
+\* generator shows an edge when the block states a level other than the one the edge list shows, none
+\* when the level is implied): then an edge list may expose any part of the trailing silence.
+BlipTail(segs) == \E j \in 1..Len(segs) : Merged(segs[j]) /\ \A i \in j..Len(segs) : Merged(segs[i]) \/ segs[i][3] = "w"
+\* p is an initial part of q: all segments but the last equal, the last at the same level and not longer
+SigPrefix(p, q) == \/ Len(p) = 0
+                   \/ /\ Len(p) <= Len(q) /\ \A j \in 1..(Len(p) - 1) : p[j] = q[j]
+                      /\ p[Len(p)][1] = q[Len(p)][1] /\ p[Len(p)][2] <= q[Len(p)][2]
+SignalVariants(segs) == IF FinalTailEither(segs) THEN {segs, OpenTail(segs)} ELSE {FiniteSegs(segs)}
+\* "contains exactly the pulses the blocks specify"
+SignalIs(played, segs) ==
+  \E v \in SignalVariants(segs) :
+     \/ played = Canon(TrimSilence(v))
+     \/ BlipTail(v) /\ SigPrefix(Canon(TrimSilence(v)), played) /\ SigPrefix(played, Canon(DropMerged(v)))
+SignalOK(edges, blocks, fe, gpol) == SignalIs(PlayedSignal(edges), TapeSegs(blocks, fe, gpol))
 
 \* time at which segment k of segs starts
 RECURSIVE StartOf(_, _)
@@ -332,7 +352,7 @@ RangeClause(blocks, fe, gpol, edges, ranges) ==
 PropertyClause(blocks, fe, gpol, edges, ranges) ==
   IF Len(edges) = 0 THEN "no-edges"
   ELSE IF ~Monotone(edges) THEN "monotone"
-  ELSE IF PlayedSignal(edges) \notin ExpectedSignals(blocks, fe, gpol) THEN "pulses"
+  ELSE IF ~SignalOK(edges, blocks, fe, gpol) THEN "pulses"
   ELSE RangeClause(blocks, fe, gpol, edges, ranges)
 
 \* the same ranges in the generator's format <<n, start, end, bytes?>> -> <<start, end, bytes?, len>>
